@@ -52,4 +52,17 @@ def run(tier, seed, repo, focus=None):
                 scns.append({"det": name, "variant": 0, "seed": seed, "prefix": prefix, "bad": bad})
     drivers.run_scenarios(res, "mixed_width", scns, known)
     monitored_histories(res, "C14", ["C14"], tier, seed, known, with_faults=True)
+    # 'the same values, whatever the container': a caller that overwrites the ndarray / frame it passed must get the outputs of
+    # a caller that passed private copies (the aliasing scenarios of C15 - an array kept by reference behaves differently
+    # from the same values given as a list)
+    _scns = []
+    for _name, _d in C.DETECTORS.items():
+        if _d["kind"] == "label":
+            continue
+        _n = {"value": 60, "row": 60, "batch": 8}[_d["kind"]]
+        if _name == "PCACD":
+            _n = 90
+        for _mode in ("c", "view", "df"):
+            _scns.append({"det": _name, "variant": 0, "seed": seed, "n": _n, "mode": _mode})
+    drivers.run_scenarios(res, "no_alias", _scns, known)
     return res.finish()
